@@ -1,9 +1,9 @@
 """C01 — every task gets exactly one terminal outcome, reported once, in order."""
 from hqrules.core import FailClosed, callee_of, callee_decl, op_local, op_place, place_fields, norm, op_const
-from hqrules.templates import (effect_blocks, must_pass, state_writes, variants_at, call_sites, construct_sites, Effect,
+from hqrules.templates import (local_field_sources, effect_blocks, must_pass, state_writes, variants_at, call_sites, construct_sites, Effect,
                                check_arm_effect, pick_scrutinee, loop_headers_containing, owner_fn, scrutinees)
 from .common import *
-from . import reactor_table, job_table
+from . import reactor_table, job_table, shared_rules
 
 EXPLANATION = ('Structural necessary conditions of C01: (tako) terminal announcements are paired with forgetting the task and nothing '
                'is announced for an unknown id; (HQ) the JobTaskState transition table only leaves Waiting/Running, each setter emits '
@@ -29,6 +29,16 @@ def run(ctx):
     ctx.rule('R01.6', 'time limit: the sleep-won arm notifies the task (timeout stop) before re-awaiting; Timeout->Timeouted->Failed')
     ctx.rule('R01.7', 'cancel_job is atomic w.r.t. worker messages: no await between reading the non-terminal ids, ServerRef::cancel_tasks and Job::set_cancel_state')
 
+    ctx.rule('R01.8', 'tasks announced aborted by max-fails are exactly the tasks tako is told to cancel (otherwise they start/finish after their terminal event)')
+    ctx.rule('R01.9', 'ComputeTasksBuilder: when the shared task data is flushed into a message the configuration index is cleared (a stale index gives a task another task\'s body and time limit)')
+    shared_rules.max_fails_ids(ctx, 'R01.8')
+    shared_rules.error_result_reaches_cancel(ctx, 'R01.8')
+    cmo = prog.body(T + 'server::task::ComputeTasksBuilder::create_message_on_overflow')
+    takes = [bi for bi in cmo.call_blocks('core::mem::take') if 'shared_data' in local_field_sources(cmo, op_local(cmo.term[bi]['args'][0]))]
+    clears = [bi for bi in cmo.call_blocks(lambda c: c.endswith('::clear')) if 'configuration_index' in local_field_sources(cmo, op_local(cmo.term[bi]['args'][0]))]
+    ctx.require(takes, 'R01.9: mem::take(shared_data) missing')
+    ok, wit = must_pass(cmo, takes, clears)
+    ctx.ob('R01.9', 'create_message_on_overflow|take shared_data -> clear configuration_index', ok, 'configuration_index (indices into shared_data) is cleared whenever shared_data is taken', cmo.loc(takes[0]))
     # ---- R01.1
     n = reactor_table.run_rows(ctx, 'R01.1', 'C01')
     ctx.floor('R01.1', n, 6, 'reactor rows for C01')
